@@ -28,7 +28,13 @@ pub fn gen_doc(rng: &mut Rng, max_items: usize) -> (Vec<Value>, Vec<u8>, Vec<(us
         if r < 5 && !in_title {
             let name = *rng.pick(NAMES);
             let mut attrs: Vec<(String, String)> = Vec::new();
-            for _ in 0..rng.below(2) { attrs.push((rng.pick(&["x", "class", "id"]).to_string(), rng.pick(&["p", "q", "p q"]).to_string())); }
+            // 0-2 attributes with distinct names; the source may spell a name in any case
+            for _ in 0..rng.below(3) {
+                let an = *rng.pick(&["x", "class", "id"]);
+                if attrs.iter().any(|(a, _): &(String, String)| a.eq_ignore_ascii_case(an)) { continue; }
+                let shown = match rng.below(6) { 0 => an.to_ascii_uppercase(), 1 => { let mut c = an.to_string(); c[..1].make_ascii_uppercase(); c } _ => an.to_string() };
+                attrs.push((shown, rng.pick(&["p", "q", "p q"]).to_string()));
+            }
             let sc = rng.chance(1, 8) && name != "title";
             let s = html.len();
             html.extend_from_slice(format!("<{name}").as_bytes());
@@ -183,7 +189,8 @@ pub fn job_c05(out_dir: &str, tier: &str, seed: u64) {
                 }
             }
         }
-        let nsel = rng.below(4);
+        // mostly 0-3 selector handlers; sometimes more than a machine word's worth of them (match-id sets)
+        let nsel = if rng.chance(1, 40) { 60 + rng.below(45) } else { rng.below(4) };
         let mut elem_h = Vec::new();
         let mut elem_cfg = Vec::new();
         let removing = rng.chance(1, 5);
